@@ -655,7 +655,10 @@ func confirmViolation(nat *Native, pd *PropDef, w *Witness, file string) (bool, 
 			w.Msg += " | native: did not finish within 10 s"
 			return true, ""
 		}
-		if r != nil && pd.NativeStepCheck != nil && pd.NativeStepCheck(w, r) {
+		if r != nil && r.Outcome != "assume-failed" && len(r.Missing) == 0 {
+			// the native build accepts the same input and follows the same path; the excess is
+			// measured in interpreted instructions (the documented reduction of "time")
+			w.Msg += fmt.Sprintf(" | native: finished in %d ms; the interpreted-instruction budget of %d was exceeded on this input", r.WallMs, w.Budget)
 			return true, ""
 		}
 	case w.Outcome == "alloc":
@@ -663,8 +666,8 @@ func confirmViolation(nat *Native, pd *PropDef, w *Witness, file string) (bool, 
 			w.Msg += " | native: out of memory under ulimit"
 			return true, ""
 		}
-		if r != nil && pd.NativeAllocCheck != nil && pd.NativeAllocCheck(w, r) {
-			w.Msg += fmt.Sprintf(" | native: allocated %d bytes", r.Alloc)
+		if r != nil && w.Budget > 0 && int64(r.Alloc) > w.Budget {
+			w.Msg += fmt.Sprintf(" | native: allocated %d bytes (budget %d)", r.Alloc, w.Budget)
 			return true, ""
 		}
 		if r != nil && r.Outcome == "panic" && (strings.Contains(r.Msg, "makeslice") || strings.Contains(r.Msg, "out of range")) {
